@@ -222,7 +222,10 @@ PROPS['C03'] = floor_prop(
 PROPS['C04'] = floor_prop(
     'C04', ['SimProc.Props.C04', 'SimProc.Props.C04W'], ['SimProc/Props/C04.lean', 'SimProc/Props/C04W.lean'],
     {'rec': _c.only(('received_part',)), 'ran': None},
-    ('rec received_part',), 'family serial: source -> handlers/processors/buffers -> sink with constant parameters; '
+    ('rec received_part',), 'family serial: source -> handlers/processors/buffers -> sink with constant parameters; horizons of length 0 '
+                            'and horizons split over several run calls (some of length 0); family serialq: the same lines with a '
+                            'small source budget that is topped up during and between runs (outside the constant-budget theorem: '
+                            'correspondence and the reference recurrence with permission times only); '
                             'non-trivial = at least one part reached a station',
     # serialq: the same lines with a small source budget that is topped up during the run and between runs
     families=[('serial', 300, 6000), ('serialq', 100, 2000)])
